@@ -10,6 +10,7 @@ package dhcpd
 //vx:entry vxC10Full reach=full,offer,ack,nak,released,static-added,static-updated,recycled,exhausted,restart
 //vx:entry vxC10Probe reach=offer,ack,blocked,recycled,restart
 //vx:entry vxC10Protocol tier=thorough reach=offer,ack,nak,dropped,released,declined,recycled,restart
+//vx:entry vxC10Admin tier=thorough reach=offer,ack,static-added,static-rejected,static-updated,static-removed,restart
 //vx:stub time.Now vxC10Now
 //vx:stub encoding/json.Marshal vxC10Marshal
 //vx:stub encoding/json.Unmarshal vxC10Unmarshal
@@ -17,7 +18,7 @@ package dhcpd
 //vx:stub github.com/google/renameio/v2/maybe.WriteFile vxC10WriteFile
 //vx:stub (*github.com/AdguardTeam/AdGuardHome/internal/dhcpd.v4Server).addrAvailable vxC10AddrAvailable
 //vx:note configuration concrete: subnet 192.168.10.0/24, gateway .1 (outside the pool), server .2, pool .100-.101 (History thorough: also .100-.102), lease time 3600 s, ICMP probe off except in the Probe entry. Clients: 3 fixed hardware addresses (interchangeable: a step uses an already seen client or the next new one); every address parameter = 192.168.10.x with x one symbolic byte (for init-reboot and static add/update also 10.0.0.x); host names from {"", "h1"} (History thorough also "h2"); clock concrete, whole seconds, advanced by lease time + 1 s (thorough: also exactly the lease time)
-//vx:note History: 3 arbitrary operations from the empty table out of DISCOVER, REQUEST (selecting with right/wrong server id, init-reboot, renew), RELEASE, DECLINE, add/update/remove static lease, clock step, restart (new server loads the lease file). Full: table populated by the real handlers (both pool addresses offered and acknowledged; thorough also: first pool address reserved + second acknowledged, and one acknowledged-and-expired + one fresh lease), then 2 arbitrary operations. Probe: pool of 2, 4 (thorough 5) operations out of DISCOVER/selecting REQUEST/DECLINE/clock/restart, the ICMP probe answers "in use" at most twice. Protocol (thorough): 4 client messages / clock steps / restarts without administrator operations. A non-final step without effect on table or clock is pruned (equal to the shorter history, whose checks ran as a prefix)
+//vx:note History: 3 arbitrary operations from the empty table out of DISCOVER, REQUEST (selecting with right/wrong server id, init-reboot, renew), RELEASE, DECLINE, add/update/remove static lease, clock step, restart (new server loads the lease file). Full: table populated by the real handlers (both pool addresses offered and acknowledged; thorough also: first pool address reserved + second acknowledged, and one acknowledged-and-expired + one fresh lease), then 2 arbitrary operations. Admin (thorough only): pool of 2, 4 operations out of DISCOVER/selecting REQUEST/add, update, remove static lease/clock/restart. Probe: pool of 2, 4 (thorough 5) operations out of DISCOVER/selecting REQUEST/DECLINE/clock/restart, the ICMP probe answers "in use" at most twice. Protocol (thorough): 4 client messages / clock steps / restarts without administrator operations. A non-final step without effect on table or clock is pruned (equal to the shorter history, whose checks ran as a prefix)
 //vx:note checked after every step: no two list entries share an address or a non-zero hardware address; dynamic entries in the pool, static ones in the subnet, none on the gateway; ipIndex/hostsIndex/pool bitmap agree exactly with the list; reservations accepted so far are in the table with their address; the last document handed to the JSON encoder lists exactly the table (address, MAC text, static flag, expiry to the second, host name; a dynamic lease stored without host name may carry the generated one after a load). On every offer/ack (and the address in the reply to DECLINE): the client has a table entry with that address; no other client was acknowledged that address with an expiry in the future (reference model of what clients were told; a client forgets on its RELEASE/DECLINE, successful administrator operations override) and no other client has it reserved; a client with a reservation gets exactly it, others a pool address, never the gateway. DISCOVER of a client without entry gets an offer whenever the list has a pool address without a static or unexpired (expiry >= now) entry. Restart: same number of leases, each with same address/MAC/static flag/expiry/host name, same HostByIP and IPByHost answers (host names of dynamic leases that had none are generated on load: left open)
 //vx:note stubs: math/big.Int methods used by ipRange (SetBytes Sub Add Set Cmp Sign IsUint64 Uint64 FillBytes, NewInt) = 128-bit reference in Go (assembly kernels); time.Now = harness clock; encoding/json.Marshal/Unmarshal, os.ReadFile, renameio maybe.WriteFile = the lease file as the list of dbLease records (server.dbStore, writeDB incl. sorting, dbLoad, fromLease/toLease, net.ParseMAC, time formatting and parsing run for real); (*v4Server).addrAvailable = bounded nondeterministic probe answer
 //vx:note outside: histories longer than the bounds, pools larger than 3, more than 3 clients, hardware addresses of other lengths or all zero, sub-second clocks, lease-time option handling and other DHCP options, the wire codec and packetHandler's reply routing, DHCPv6, HTTP layer (JSON parsing of static leases, IPv6/4in6 addresses), concurrency of handlers (lock discipline), crash during a store (C14), ResetLeases via HTTP reset, whether DECLINE should quarantine the declined address (it is handed straight back: observed, not part of the statement)
@@ -884,6 +885,16 @@ func vxC10Protocol() {
 	vxC10Init(2, 0)
 	vxC10Run(4, []int{
 		vxC10OpDiscover, vxC10OpSelecting, vxC10OpInitReboot, vxC10OpRenew, vxC10OpRelease, vxC10OpDecline,
+		vxC10OpClock, vxC10OpRestart,
+	}, 0, 2)
+}
+
+// vxC10Admin (thorough): four operations mixing the static-lease API with the
+// basic client exchange, clock steps and restarts.
+func vxC10Admin() {
+	vxC10Init(2, 0)
+	vxC10Run(4, []int{
+		vxC10OpDiscover, vxC10OpSelecting, vxC10OpAddStatic, vxC10OpUpdateStatic, vxC10OpRemoveStatic,
 		vxC10OpClock, vxC10OpRestart,
 	}, 0, 2)
 }
